@@ -507,6 +507,29 @@ pub fn run(out: &mut Out, tier: &str, seed: u64, prop: &str) {
             round_trip(out, &mut rc, &text, &vars);
         }
     }
+    // ---- C08: markers whose rendering goes through the DNF simplifier's negation test (ordering operators on a
+    //      string key against one literal, with a guard on a later variable), and quote-bearing values ----------
+    if prop == "C08" {
+        let ops = ["==", "!=", "<", "<=", ">", ">="];
+        let mut texts: Vec<String> = Vec::new();
+        for key in ["os_name", "platform_release", "python_full_version"] {
+            let (a, b) = if key == "python_full_version" { ("3.8", "3.9") } else { ("a", "b") };
+            for o1 in ops { for o2 in ops {
+                texts.push(format!("pkg ; ({key} {o1} '{b}' and extra == 'x') or {key} {o2} '{b}'"));
+                texts.push(format!("foo[bar]>=1.0,<2 ; {key} {o1} '{a}' and {key} {o2} '{b}' and extra == 'bar'"));
+                if o1 < o2 { texts.push(format!("pkg @ https://example.org/p-1.0.tar.gz ; {key} {o1} '{b}' or ({key} {o2} '{b}' and 'x' in platform_machine)")); }
+            } }
+        }
+        for v in ["it's", "x\"y"] { for (l, r) in [("os_name", "in"), ("os_name", "not in")] {
+            let q = if v.contains('\'') { '"' } else { '\'' };
+            texts.push(format!("pkg ; {q}{v}{q} {r} {l}"));
+            texts.push(format!("pkg ; {l} {r} {q}{v}{q} or extra == 'x'"));
+        } }
+        for text in texts {
+            let ans = req_case(out, &mut w, &mut rc, prop, &text, &vars);
+            if ans.starts_with("ok ") { round_trip(out, &mut rc, &text, &vars); out.stat("c08.targeted_markers"); }
+        }
+    }
     // ---- corpus of minimised past failures, first ------------------------------------------------------
     if prop == "C06" || prop == "C18" {
         for line in std::fs::read_to_string("/verif/corpus/req.txt").unwrap_or_default().lines() {
